@@ -191,6 +191,11 @@ func (g *genState) step() {
 			}
 		}
 		g.do("commit %d %d %d", k, bi, sz)
+		if r.Intn(12) == 0 { // many tiny write markers, each charged a whole chunk: drains the write pool
+			for t, n := 0, 8+r.Intn(40); t < n; t++ {
+				g.do("commit %d %d %d", k, bi, 1+r.Intn(50))
+			}
+		}
 	case w < 40: // time
 		switch r.Intn(10) {
 		case 0:
@@ -281,7 +286,12 @@ func (g *genState) step() {
 			add = fmt.Sprint(g.pick(cand))
 			d := a.BAs[r.Intn(len(a.BAs))]
 			rem = fmt.Sprint(x.blobIdx(d.BlobberID))
-			// prefer a dead one if there is one
+			// prefer a live blobber with a challenge history (pass rate below 1), or a dead one if there is one
+			for _, e := range a.BAs {
+				if e.Total > 0 && e.Failed > 0 && r.Intn(2) == 0 {
+					rem = fmt.Sprint(x.blobIdx(e.BlobberID))
+				}
+			}
 			for _, e := range a.BAs {
 				if g.dead[x.blobIdx(e.BlobberID)] && r.Intn(4) != 0 {
 					rem = fmt.Sprint(x.blobIdx(e.BlobberID))
@@ -516,6 +526,22 @@ var scripts = [][]string{
 		"tick 86400 5 1", "genc", "genc", "genc", "genc", "resp 0 0 pass", "resp 0 1 pass", "resp 1 0 pass", "resp 1 1 pass",
 		"tick 86400 5 1", "genc", "genc", "genc", "genc", "resp 0 0 fail", "resp 0 1 fail", "resp 1 0 fail", "resp 1 1 fail",
 		"tick 2419300 5 1", "fin 0 c3", "tick 2592000 5 1", "fin 1 c3", "fin 1 b0"},
+	// pass rate strictly between 0 and 1, then the LIVE blobber is replaced: reward + the rest of its value leave the pool
+	{"init fx-passrate-replace 1",
+		"addb 0 107374182400 1000000000 100000000 0 100", "addb 1 107374182400 1000000000 100000000 1 100", "addb 2 107374182400 1000000000 100000000 2 100",
+		"addv 0 0", "addv 1 1", "addv 2 2",
+		"stake b 0 0 1000000000000", "stake b 1 1 1000000000000", "stake b 2 2 1000000000000",
+		"stake v 0 3 100000000000", "stake v 1 3 100000000000", "stake v 2 3 100000000000",
+		"newa 3 1 1 1073741824 100000000000 0,1", "commit 0 0 104857600", "commit 0 1 104857600",
+		"tick 86400 5 1", "genc", "genc", "resp 0 0 pass", "resp 0 1 pass",
+		"tick 86400 5 1", "genc", "genc", "resp 0 0 fail", "resp 0 1 fail",
+		"tick 432000 5 1", "upd 0 c3 0 0 0 2 1", "tick 86400 5 1", "upd 0 c3 0 0 1 1 0", "cancel 0 c3"},
+	// an allocation funded with exactly its cost; write markers of 1 byte are charged a whole 64 KiB chunk each, so the
+	// write pool runs dry and `upload` clamps the move to what is left
+	{"init fx-tiny-uploads 1",
+		"addb 0 107374182400 1000000000 100000000 0 100", "addb 1 107374182400 1000000000 100000000 1 100",
+		"stake b 0 0 1000000000000", "stake b 1 1 1000000000000",
+		"newa 3 1 1 1048576 1953124 0,1", "commit 0 0 1", "commit 0 0 1", "commit 0 0 1", "commit 0 0 1", "commit 0 0 1", "commit 0 0 1", "commit 0 0 1", "commit 0 0 1", "commit 0 0 1", "commit 0 0 1", "commit 0 0 1", "commit 0 0 1", "commit 0 0 1", "commit 0 0 1", "commit 0 0 1", "commit 0 0 1", "commit 0 0 1", "commit 0 0 1", "commit 0 0 1", "commit 0 0 1", "commit 0 0 1", "commit 0 0 1", "commit 0 0 1", "commit 0 0 1", "commit 0 0 1", "commit 0 0 1", "commit 0 0 1", "commit 0 0 1", "commit 0 0 1", "commit 0 0 1", "commit 0 0 1", "commit 0 0 1", "commit 0 0 1", "commit 0 0 1", "commit 0 0 1", "commit 0 0 1", "commit 0 1 1", "cancel 0 c3"},
 	// price change, then extend: the offer delta must use the OLD terms for the share already held
 	{"init fx-reprice-extend 1",
 		"addb 0 107374182400 1000000000 100000000 0 100", "addb 1 107374182400 1000000000 100000000 1 100",
